@@ -594,6 +594,9 @@ def s2_static(n, edges, counts, layout, xy=None):
     return peaks, vals, ch, table
 
 
+S2_REGROUP_MLS = -1.0
+
+
 def s2_call(n, edges, static, matches, mls, mip):
     """Run the real group_instances_sample; returns (error, decoded instances)."""
     import torch
@@ -611,7 +614,25 @@ def s2_call(n, edges, static, matches, mls, mip):
         )
     except Exception as e:
         return f"group_instances_sample raised {type(e).__name__}: {e}", None
-    return decode_instances(n, table, inst, ps, isc)
+    first = decode_instances(n, table, inst, ps, isc)
+    if first[0] is None and mls > S2_REGROUP_MLS and matches:
+        # history of length 2 on the SAME match tensors: regroup with a more lenient threshold (a threshold sweep);
+        # the second result must be the partition for that threshold, whatever was grouped before
+        try:
+            inst2, ps2, isc2 = group_instances_sample(
+                peaks, vals, ch, me, ms, md, sco, n, sc.sorted_edge_inds, sc.edge_types, mip, S2_REGROUP_MLS
+            )
+        except Exception as e:
+            return f"regrouping the same matches with min_line_scores={S2_REGROUP_MLS} after min_line_scores={mls} raised {type(e).__name__}: {e}", None
+        err2, got2 = decode_instances(n, table, inst2, ps2, isc2)
+        exp2 = ref_group(n, edges, matches, S2_REGROUP_MLS, mip)
+        if err2 or not same_instances(got2, exp2):
+            return (
+                f"regrouping the SAME match tensors with min_line_scores={S2_REGROUP_MLS} after a call with min_line_scores={mls} gives "
+                f"{err2 or fmt_inst(got2)} != connected components of the accepted matches {fmt_inst(exp2)} (state left in the inputs by the first call)",
+                None,
+            )
+    return first
 
 
 def s2_check(n, edges, static, matches, mls, mip):
